@@ -327,3 +327,23 @@ impl Default for StepSizeSettings {
         }
     }
 }
+
+#[cfg(nuts_rs_verif)]
+impl Strategy {
+    /// Verification hook: internal state of the step-size adaptation:
+    /// `(kind, [f64; 4], counter)` with kind 0 = dual averaging `(log_step, log_step_adapted, hbar, mu)`,
+    /// 1 = Adam `(log_step, m, v, 0)`, 2 = fixed.
+    pub fn verif_state(&self) -> (u8, [f64; 4], u64) {
+        match &self.adaptation {
+            Some(Either::Left(da)) => {
+                let (a, b, c, d, n) = da.verif_fields();
+                (0, [a, b, c, d], n)
+            }
+            Some(Either::Right(ad)) => {
+                let (a, b, c, n) = ad.verif_fields();
+                (1, [a, b, c, 0.0], n)
+            }
+            None => (2, [0.0; 4], 0),
+        }
+    }
+}
